@@ -446,9 +446,6 @@ func main() {
 					r.changed = true
 					r.stats["syncimport"]++
 				}
-				if path == "sync/atomic" {
-					fmt.Fprintf(os.Stderr, "instr: note: %s uses sync/atomic; atomics are not scheduling points\n", name)
-				}
 			}
 			astutil.Apply(f, nil, r.post)
 			if r.changed {
